@@ -9,7 +9,7 @@ Line protocol for C20 (one operation per line, one canonical answer per line; `b
   hascov 0|1                      whether the delivery class created self.coverage_dist (routine: 1, campaign: 0)
   gate ti|t                       which gate the step uses (extracted from the source by the harness)
   hioff <int>                     constant added to max_capacity in the queue slice (extracted)
-  routine <thr> <fineSub> <coarse> <yearvec> <simStart> <simStop> <years|none> <sy|none> <ey|none> <prob> <annual> <dt>
+  routine <thr> <fineSub> <coarse> <vecPerTimepoint> <yearvec> <simStart> <simStop> <years|none> <sy|none> <ey|none> <prob> <annual> <dt>
   campaign <timevec> <years> <prob>
   flags <s> <uids>                disease state array number s is true exactly on these uids
   setrs <u:rat,...>               external change of rel_sus
@@ -157,16 +157,16 @@ def stepLine (d : D) (line : String) : D × String :=
   | ["hioff", k] => match parseInt? k with
       | some k => ({ d with hiOff := k }, "ok")
       | none => bad
-  | ["routine", thr, fs, co, yv, s0, s1, ys, sy, ey, pr, an, dt] =>
+  | ["routine", thr, fs, co, vpt, yv, s0, s1, ys, sy, ey, pr, an, dt] =>
       match parseRat? thr, parseInt? fs, parseInt? co, parseRatList? yv, parseRat? s0, parseRat? s1,
             parseOptRatList? ys, parseOptRat? sy with
       | some thr, some fs, some co, some yv, some s0, some s1, some ys, some sy =>
-        match parseOptRat? ey, parseRatList? pr, parseBool? an, parseRat? dt with
-        | some ey, some pr, some an, some dt =>
-          match routineInit ⟨thr, fs, co⟩ ⟨yv, s0, s1, ys, sy, ey, pr, an, dt⟩ with
+        match parseOptRat? ey, parseRatList? pr, parseBool? an, parseRat? dt, parseBool? vpt with
+        | some ey, some pr, some an, some dt, some vpt =>
+          match routineInit ⟨thr, fs, co, vpt⟩ ⟨yv, s0, s1, ys, sy, ey, pr, an, dt⟩ with
           | .error e => (d, showErr e)
           | .ok s => ({ d with sched := s }, showSched s)
-        | _, _, _, _ => bad
+        | _, _, _, _, _ => bad
       | _, _, _, _, _, _, _, _ => bad
   | ["campaign", tv, ys, pr] =>
       match parseRatList? tv, parseRatList? ys, parseRatList? pr with
